@@ -185,6 +185,9 @@ CONTRACTS.append(Contract(
     ensures=[("without an explicit policy the parent's is inherited", "result.truncate_error == cls.truncate_error")],
 ))
 
+from contracts import c09_frames  # noqa: E402
+
+CONTRACTS += c09_frames.CONTRACTS
 BOUNDED = [Bounded("c09", "harness/c09.py", descr="option grids incl. chains of using() and parent-after-child behaviour", timeout=900)]
 
 MUTANTS = [
@@ -198,3 +201,4 @@ MUTANTS = [
     ("using: alias check dropped", H, "        if max_rounds is not None:\n            if max_desired_rounds is not None:\n                raise TypeError(", "        if max_rounds is not None:\n            if False:\n                raise TypeError(", "refute"),
     ("using: clip of default removed", H, "        if subcls.default_rounds is not None:\n            subcls.default_rounds = subcls._clip_to_desired_rounds(\n                subcls.default_rounds\n            )\n", "", "refute"),
 ]
+MUTANTS += c09_frames.MUTANTS
